@@ -195,6 +195,15 @@ class Worker:
         addition/enqueueing. This is necessary to ensure that the idle status is
         always correct.
         """
+        self._mailbox_mutex = Lock()
+        """
+        A lock to make await registration and result delivery atomic.
+
+        The incoming thread deposits results and wakes waiting tasks while the
+        main thread registers a task as waiting on a mailbox. Without mutual
+        exclusion, a result delivered between the registration and the
+        readiness test wakes the same task twice.
+        """
         # Send out every client emitted log message upstream
         old_factory = logging.getLogRecordFactory()
 
@@ -320,23 +329,25 @@ class Worker:
         assert result.return_address.worker_id == self._id
 
         mailbox_id = result.return_address.mailbox_index
-        if mailbox_id not in self._mailboxes:
-            # If the mailbox has been dropped due to a cancel, ignore result
-            return
+        with self._mailbox_mutex:
+            if mailbox_id not in self._mailboxes:
+                # If the mailbox has been dropped due to a cancel,
+                # ignore result
+                return
 
-        box = self._mailboxes[mailbox_id]
-        box.deposit_result(result)
+            box = self._mailboxes[mailbox_id]
+            box.deposit_result(result)
 
-        if box.has_task_waiting:
-            assert box.dest_addr is not None
-            task = self._tasks[box.dest_addr]
+            if box.has_task_waiting:
+                assert box.dest_addr is not None
+                task = self._tasks[box.dest_addr]
 
-            if task.wake_on_next or box.ready:
-                # print(f'Worker {self._id} is waking task
-                # {task.return_address}, with {task.wake_on_next=},
-                # {box.ready=}')
-                self._ready_task_ids.put(box.dest_addr)  # Wake it
-                box.dest_addr = None  # Prevent double wake
+                if task.wake_on_next or box.ready:
+                    # print(f'Worker {self._id} is waking task
+                    # {task.return_address}, with {task.wake_on_next=},
+                    # {box.ready=}')
+                    self._ready_task_ids.put(box.dest_addr)  # Wake it
+                    box.dest_addr = None  # Prevent double wake
 
     def _handle_cancel(self, addr: RuntimeAddress) -> None:
         """
@@ -475,27 +486,29 @@ class Worker:
         if not isinstance(future, RuntimeFuture):
             raise RuntimeError('Can only await on a BQSKit RuntimeFuture.')
 
-        if future.mailbox_id not in self._mailboxes:
-            raise RuntimeError('Cannot await on a canceled task.')
+        with self._mailbox_mutex:
+            if future.mailbox_id not in self._mailboxes:
+                raise RuntimeError('Cannot await on a canceled task.')
 
-        box = self._mailboxes[future.mailbox_id]
+            box = self._mailboxes[future.mailbox_id]
 
-        # Let the mailbox know this task is waiting
-        box.dest_addr = task.return_address
-        task.desired_box_id = future.mailbox_id
+            # Let the mailbox know this task is waiting
+            box.dest_addr = task.return_address
+            task.desired_box_id = future.mailbox_id
 
-        # if future._next_flag:
-        #     # Set from Worker.next, implies the task wants the next result
-        #     # if box.ready:
-        #     #     m = 'Cannot wait for next results on a complete task.'
-        #     #     raise RuntimeError(m)
-        #     task.wake_on_next = True
-        task.wake_on_next = future._next_flag
-        # print(f'Worker {self._id} is waiting on task
-        # {task.return_address}, with {task.wake_on_next=}')
+            # if future._next_flag:
+            #     # Set from Worker.next, implies the task wants the next
+            #     # result
+            #     # if box.ready:
+            #     #     m = 'Cannot wait for next results on a complete task.'
+            #     #     raise RuntimeError(m)
+            #     task.wake_on_next = True
+            task.wake_on_next = future._next_flag
+            # print(f'Worker {self._id} is waiting on task
+            # {task.return_address}, with {task.wake_on_next=}')
 
-        if box.ready:
-            self._ready_task_ids.put(task.return_address)
+            if box.ready:
+                self._ready_task_ids.put(task.return_address)
 
     def _process_task_completion(self, task: RuntimeTask, result: Any) -> None:
         """Package and send out task result."""
